@@ -223,8 +223,14 @@ def g_from(m, path, v):
         return VecObj(list(dv.items)) if isinstance(dv, VecObj) else VecObj(dv.vec.items[dv.lo:dv.hi])
     if ty == srcb and ty is not None and (ty, "From") not in m.world.impl_pairs(): return v       # reflexive From<T> for T
     if ty == "Box": return BoxObj(v)
-    if ty in ("f64",) and isinstance(dv, (int, float)): return float(dv)
-    if ty in ("u64", "usize", "i64", "u128", "i128") and isinstance(dv, (int, bool)) and not isinstance(dv, bool): return dv
+    from machine import INT_BITS
+    if ty in INT_BITS and ty != "bool" and srcb in INT_BITS:
+        if srcb == "bool":
+            if is_sym(dv): return z3.If(dv, z3.BitVecVal(1, INT_BITS[ty]), z3.BitVecVal(0, INT_BITS[ty]))
+            return int(bool(dv))
+        return m.cast(dv, srcb, ty, "IntToInt")
+    if ty in ("f64", "f32") and srcb in INT_BITS and srcb != "bool": return m.cast(dv, srcb, ty, "IntToFloat")
+    if ty in ("f64",) and isinstance(dv, (int, float)) and not isinstance(dv, bool): return float(dv)
     if ty == "Complex": return Agg("Complex", None, [v, 0.0])
     if ty == "Arc" or ty == "Rc": return Agg(ty, None, [v])
     return NotImplemented
@@ -431,9 +437,22 @@ def result_unwrap_err(m, r, *msg):
 
 
 @model("std::option::Option::unwrap_or_default")
-def option_unwrap_or_default(m, o):
+def option_unwrap_or_default(m, path, o):
     if o.tag == 1: return o.fields[0]
-    raise Unsupported("unwrap_or_default on None needs the type")
+    k = path.find("Option::<")
+    if k < 0: raise Unsupported("unwrap_or_default on None needs the type")
+    inner = path[k + len("Option::<"):path.rindex(">::unwrap_or_default")]
+    return default_of(m, inner)
+option_unwrap_or_default.wants_path = True
+
+
+@model("std::result::Result::unwrap_or_default")
+def result_unwrap_or_default(m, path, r):
+    if r.tag == 0: return r.fields[0]
+    k = path.find("Result::<")
+    inner = split_top(path[k + len("Result::<"):path.rindex(">::unwrap_or_default")])[0]
+    return default_of(m, inner)
+result_unwrap_or_default.wants_path = True
 
 
 M["std::result::Result::map_err"] = lambda m, r, f: r if r.tag == 0 else ERR(m.call_value(f, [r.fields[0]]))
@@ -769,6 +788,84 @@ for _t, _b, _s in (("u64", 64, False), ("usize", 64, False), ("u32", 32, False),
     for _op in ("add", "sub", "mul"):
         M[f"core::num::checked_{_op}"] = _checked(_op, 64, False)
 del M["core::num::<impl u64>::checked_add"]
+def sym_option(cond, value):
+    if not is_sym(cond): return SOME(value) if cond else NONE()
+    return Agg("Option", None, None, symtag=z3.If(cond, 1, 0), alts={"None": [], "Some": [value]})
+
+
+def sym_result(cond, value, err=None):
+    if not is_sym(cond): return OK(value) if cond else ERR(err if err is not None else UNIT)
+    return Agg("Result", None, None, symtag=z3.If(cond, 0, 1), alts={"Ok": [value], "Err": [err if err is not None else UNIT]})
+
+
+def _int_ty(path, fallback="u64"):
+    mm = __import__("re").search(r"<impl (\w+)>", path)
+    return mm.group(1) if mm else fallback
+
+
+def _as_int(v, ty):
+    """mathematical integer (z3 Int or python int) of a machine integer of type ty"""
+    from machine import INT_BITS
+    bits, signed = INT_BITS[ty], ty.startswith("i")
+    if is_sym(v): return z3.BV2Int(v, signed)
+    return v - (1 << bits) if signed and v >> (bits - 1) else v
+
+
+def _fits(r, ty):
+    from machine import INT_BITS
+    bits, signed = INT_BITS[ty], ty.startswith("i")
+    lo, hi = (-(1 << (bits - 1)), (1 << (bits - 1)) - 1) if signed else (0, (1 << bits) - 1)
+    if is_sym(r): return z3.And(r >= lo, r <= hi)
+    return lo <= r <= hi
+
+
+def _wrap(m, op, a, b, ty):
+    return m.binop(op, a, b, ty)
+
+
+def checked_arith(op, other_unsigned=False):
+    def f(m, path, a, b):
+        from machine import INT_BITS
+        ty = _int_ty(path)
+        bty = ("u" + ty[1:]) if other_unsigned else ty
+        r = {"Add": lambda x, y: x + y, "Sub": lambda x, y: x - y, "Mul": lambda x, y: x * y}[op](_as_int(a, ty), _as_int(b, bty))
+        return sym_option(_fits(r, ty), _wrap(m, op, a, b, ty))
+    f.wants_path = True
+    return f
+
+
+for _op in ("add", "sub", "mul"):
+    M[f"core::num::checked_{_op}"] = checked_arith(_op.capitalize())
+M["core::num::checked_sub_unsigned"] = checked_arith("Sub", True)
+M["core::num::checked_add_unsigned"] = checked_arith("Add", True)
+
+
+@generic("<_ as TryFrom>::try_from")
+def g_try_from(m, path, v):
+    from machine import find_as, find_trait_end, INT_BITS
+    p = path.strip()
+    i = find_as(p)
+    dst = base_name(p[1:i])
+    rest = p[i + 4:]
+    j = find_trait_end(rest)
+    src = base_name(rest[rest.index("<") + 1:j - 1]) if "<" in rest[:j] else None
+    if dst in INT_BITS and src in INT_BITS and dst != "bool" and src != "bool":
+        return sym_result(_fits(_as_int(v, src), dst), m.cast(v, src, dst, "IntToInt"), Agg("TryFromIntError", None, [UNIT]))
+    return NotImplemented
+
+
+@generic("<_ as TryInto>::try_into")
+def g_try_into(m, path, v):
+    from machine import find_as, find_trait_end
+    p = path.strip()
+    i = find_as(p)
+    src = p[1:i]
+    rest = p[i + 4:]
+    j = find_trait_end(rest)
+    tgt = rest[rest.index("<") + 1:j - 1]
+    return m.call_path(f"<{tgt} as TryFrom<{src}>>::try_from", [v])
+
+
 M["core::num::saturating_sub"] = lambda m, a, b: max(0, a - b)
 M["core::num::wrapping_add"] = lambda m, a, b: (a + b) & ((1 << 64) - 1)
 M["NonZero::new"] = lambda m, v: SOME(v) if v != 0 else NONE()
